@@ -124,8 +124,9 @@ func init() {
 		return Tup{E: []Val{S{r, SInt}, S{w, SInt}}}
 	}
 	externModels["math/bits.TrailingZeros64"] = func(x *X, f *ssa.Function, args []Val) Val {
-		unsup("bits.TrailingZeros64 needs bit-vector mode")
-		return nil
+		x.bvAxioms()
+		a := args[0].(S).T
+		return S{x.define("tz", SInt, fmt.Sprintf("(ite (= %s 0) 64 (bv.tz %s))", a, a)), SInt}
 	}
 	errNew := func(x *X, f *ssa.Function, args []Val) Val {
 		if x.sc.paramName != "" {
